@@ -107,14 +107,15 @@ static int check_model(const rsig *s, const char *what) {
 }
 
 /* ------------------------------------------------------------------ mutation catalogue */
-#define NMUT 50
+#define NMUT 54
 static const char *MUTNAME[NMUT] = {
 	"chain1-input", "chainlast-input", "rfc-suffix", "chain1-time", "chainlast-time", "rfc-time", "cal-input", "cal-aggrtime-consistent",
 	"cal-flip-link", "cal-drop-link", "cal-add-link", "auth-time", "auth-hash", "pub-time", "pub-hash", "index-last-top", "index-last-bottom",
 	"meta-imprint-like", "meta-pad-flags", "meta-pad-tlv16", "meta-pad-value", "meta-pad-odd", "meta-pad-not-first", "meta-pad-twice",
 	"index-extra", "index-prefix", "rfc-index", "doc-sha1", "chain-sha1", "rfc-tst-sha1", "rfc-sig-sha1", "rfc-out-sha1", "all-times-shift", "cal-no-aggrtime",
 	"meta-padv-00", "meta-padv-ff", "meta-padv-0201", "meta-padv-0001", "meta-padv-ff01", "meta-padv-0102", "meta-padv-0100", "meta-padv-0202", "meta-padv-empty", "meta-padv-010101", "meta-padv-0101-ok", "meta-padv-01-ok",
-	"cal-add-right-lowest", "cal-add-left-lowest", "cal-add-right-second", "cal-dup-first"
+	"cal-add-right-lowest", "cal-add-left-lowest", "cal-add-right-second", "cal-dup-first",
+	"corr-2^64-1", "corr-2^64-2-last-chain", "corr-2^32", "cal-no-aggrtime-consistent"
 };
 
 static rlink *find_meta(rsig *s, int *chain) {
@@ -224,6 +225,16 @@ static int mutate(rsig *s, int m) {
 			s->cal_has_aggr = 0;
 			return 0;
 		}
+		case 53: { /* publication time = aggregation time and no aggregation-time field in the calendar chain: a consistent signature
+		            * whose signing time is the chain's publication time (no mutation by itself; it matters in pairs) */
+			if (!s->has_cal) return -1;
+			s->cal_pub_time = s->cal_aggr_time;
+			s->cal_has_aggr = 0;
+			return rs_fix(s, RS_FIX_CALSHAPE | RS_FIX_TAIL);
+		}
+		case 50: s->ch[0].links[0].level_corr = 0xffffffffffffffffULL; s->ch[0].links[0].has_level_corr = 1; return 0;   /* wraps to "no correction" in 64-bit arithmetic */
+		case 51: { rs_chain *c = &s->ch[s->nchains - 1]; c->links[c->nlinks - 1].level_corr = 0xfffffffffffffffeULL; c->links[c->nlinks - 1].has_level_corr = 1; return 0; }
+		case 52: s->ch[0].links[0].level_corr += 0x100000000ULL; s->ch[0].links[0].has_level_corr = 1; return 0;
 		case 46: case 47: case 48: case 49: { /* a surplus link at the input end of the calendar chain (the record after the chain is recomputed) */
 			int at = m == 48 ? 1 : 0, j;
 			if (!s->has_cal || s->ncal >= RS_MAXCAL || s->ncal < 2) return -1;
